@@ -111,7 +111,14 @@ func buildTools(repo, verif, scratch string, needU, needCogen bool) (*tools, err
 	}
 	drv := filepath.Join(verif, "drivers")
 	t.cocompile = filepath.Join(bin, "cocompile")
-	if r := runCmd(drv, 10*time.Minute, nil, "go", "build", "-modfile="+mod, "-o", t.cocompile, "./cocompile"); r.code != 0 {
+	buildArgs := []string{"build", "-modfile=" + mod, "-o", t.cocompile}
+	if os.Getenv("VERIF_COVER") != "" {
+		// measurement only (never part of a registered check): statement coverage of the compiler under the corpus;
+		// run with GOCOVERDIR=<dir> and inspect with `go tool covdata`
+		buildArgs = append(buildArgs, "-cover", "-coverpkg=verif/drivers/cocompile,github.com/goghcrow/go-co/rewriter")
+	}
+	buildArgs = append(buildArgs, "./cocompile")
+	if r := runCmd(drv, 10*time.Minute, nil, "go", buildArgs...); r.code != 0 {
 		return nil, fmt.Errorf("building cocompile from %s failed:\n%s", repo, r.out)
 	}
 	if needU {
